@@ -30,10 +30,14 @@ type payload struct {
 }
 
 func render(p *lang.Program) (string, map[string]string) {
-	src := lang.Render(p.Main)
+	rd := lang.Render
+	if p.MinParens {
+		rd = lang.RenderMin
+	}
+	src := rd(p.Main)
 	mods := map[string]string{}
 	for k, b := range p.Modules {
-		mods[k] = lang.Render(b)
+		mods[k] = rd(b)
 	}
 	return src, mods
 }
@@ -237,7 +241,7 @@ func classify(p *lang.Program, o *ref.Outcome, feat map[string]int) (nontrivial 
 		classes = append(classes, "has-modules")
 	}
 	for k := range feat {
-		if strings.HasPrefix(k, "builtin:") || strings.HasPrefix(k, "for-in-") || strings.Contains(k, "module") || strings.HasPrefix(k, "tpl:") || strings.HasPrefix(k, "ill-scoped:") {
+		if strings.HasPrefix(k, "builtin:") || strings.HasPrefix(k, "for-in-") || strings.Contains(k, "module") || strings.HasPrefix(k, "tpl:") || strings.HasPrefix(k, "ill-scoped:") || strings.HasPrefix(k, "render:") {
 			classes = append(classes, "gen:"+k)
 		}
 	}
@@ -288,6 +292,13 @@ func TestRefDifferential(t *testing.T) {
 			o.HostMods = []string{bridge.HostModName}
 		}
 		p, feat := gen.Program(t, o, inputs)
+		// half of the programs leave the grouping of operator chains to the
+		// parser (documented precedence, left associativity)
+		if p.MinParens = rapid.Bool().Draw(t, "minParens"); p.MinParens {
+			if lang.RenderMin(p.Main) != lang.Render(p.Main) {
+				feat["render:operator-chain-without-parentheses"] = 1
+			}
+		}
 		if rapid.IntRange(0, 11).Draw(t, "illScoped") == 0 {
 			if k := gen.InjectScopeError(t, p); k != "" {
 				feat["ill-scoped:"+k] = 1
